@@ -480,4 +480,48 @@ MUTANTS = [
            "R5.value-line-refused"),
     Mutant("sdfile-lazy", SDF, "            # Update with deserialized object\n            self._records[key] = record\n", "", "R5.lazy-parse-stored"),
     Mutant("header-field", HEAD, "{self.program:>8.8}", "{self.program:>9.9}", "R1.header-columns"),
+    # ---- one seeded fault per rule that had none -------------------------------------------
+    Mutant("bond-index-field-width", CTAB, '        f"{i + 1:>3d}{j + 1:>3d}"\n', '        f"{i + 1:>4d}{j + 1:>3d}"\n', "R1.bond-columns"),
+    Mutant("bond-second-index-slice", CTAB, "        bond_array[i, 1] = int(line[3:6]) - 1\n        bond_array[i, 2] = bond_type\n    atoms.bonds = BondList(n_atoms",
+           "        bond_array[i, 1] = int(line[3:7]) - 1\n        bond_array[i, 2] = bond_type\n    atoms.bonds = BondList(n_atoms", "R1.bond-columns"),
+    Mutant("chg-header-skip", CTAB, "        line = line[9:]\n", "        line = line[6:]\n", "R1.chg-header"),
+    Mutant("chg-count-width", CTAB, '            f"M  CHG{len(batch):>3d}"\n', '            f"M  CHG{len(batch):>4d}"\n', "R1.chg-header"),
+    Mutant("chg-ten-per-line", CTAB, "N_CHARGES_PER_LINE = 8\n", "N_CHARGES_PER_LINE = 10\n", "R1.chg-per-line"),
+    Mutant("counts-fields-separated", CTAB, '        f"{atoms.array_length():>3d}{atoms.bonds.get_bond_count():>3d}"\n', '        f"{atoms.array_length():>3d} {atoms.bonds.get_bond_count():>3d}"\n', "R1.counts-columns"),
+    Mutant("counts-bond-slice", CTAB, "    return int(counts_line[0:3]), int(counts_line[3:6])\n", "    return int(counts_line[0:3]), int(counts_line[4:7])\n", "R1.counts-columns"),
+    Mutant("reader-y-z-swapped", CTAB, "        atoms.coord[i, 1] = float(line[10:20])\n        atoms.coord[i, 2] = float(line[20:30])\n",
+           "        atoms.coord[i, 1] = float(line[20:30])\n        atoms.coord[i, 2] = float(line[10:20])\n", "R1.reader-slice"),
+    Mutant("v2000-tag-shifted", CTAB, '        "  0     0  0  0  0  0  0  1 V2000"\n', '        "  0     0  0  0  0  0  1 V2000"\n', "R1.version-tag", qualname="_write_structure_to_ctab_v2000"),
+    Mutant("v3000-tag-shifted", CTAB, 'V2000_COMPATIBILITY_LINE = "  0  0  0  0  0  0  0  0  0  0999 V3000"\n', 'V2000_COMPATIBILITY_LINE = "  0  0  0  0  0  0  0  0  0999 V3000"\n', "R1.version-tag",
+           qualname="<module>.V2000_COMPATIBILITY_LINE"),
+    Mutant("z-axis-unguarded", CTAB, '        "  0     0  0  0  0  0  0  1 V2000"\n    )\n\n    for i, coord_name in enumerate(["x", "y", "z"]):\n',
+           '        "  0     0  0  0  0  0  0  1 V2000"\n    )\n\n    for i, coord_name in enumerate(["x", "y"]):\n', "R2.coordinate-axes"),
+    Mutant("digit-guard-x-only", CTAB, '    for i, coord_name in enumerate(["x", "y", "z"]):\n        n_coord_digits = number_of_integer_digits(atoms.coord[:, i])\n        if n_coord_digits > 5:\n            raise BadStructureError(\n                f"5 pre-decimal columns for {coord_name}-coordinates are "\n                f"available, but array would require {n_coord_digits}"\n            )\n    if any(',
+           '    for i, coord_name in enumerate(["x", "y", "z"]):\n        n_coord_digits = number_of_integer_digits(atoms.coord[:, 0])\n        if n_coord_digits > 5:\n            raise BadStructureError(\n                f"5 pre-decimal columns for {coord_name}-coordinates are "\n                f"available, but array would require {n_coord_digits}"\n            )\n    if any(',
+           "R2.coordinate-axes"),
+    Mutant("header-program-not-truncated", HEAD, '            f"{self.program:>8.8}"\n', '            f"{self.program:>8}"\n', "R2.header-truncated"),
+    Mutant("nan-accepted", CTAB, '    if np.isnan(atoms.coord).any():\n        raise BadStructureError("Input AtomArray has NaN coordinates")\n', "", "R2.nan-refused"),
+    Mutant("unknown-version-as-v2000", CTAB, "        case unkown_version:\n            raise ValueError(f\"Unknown CTAB version '{unkown_version}'\")\n",
+           "        case _:\n            return _write_structure_to_ctab_v2000(atoms, default_bond_type)\n", "R2.v2000-behind-guard"),
+    Mutant("bond-codes-single-double", CTAB, "    1: BondType.SINGLE,\n    2: BondType.DOUBLE,\n", "    1: BondType.DOUBLE,\n    2: BondType.SINGLE,\n", "R3.bond-table-codes"),
+    Mutant("bond-table-not-inverted", CTAB, "BOND_TYPE_MAPPING_REV = {v: k for k, v in BOND_TYPE_MAPPING.items()}", "BOND_TYPE_MAPPING_REV = {k: v for k, v in BOND_TYPE_MAPPING.items()}", "R3.bond-table-roundtrip"),
+    Mutant("rdkit-triple-as-double", RDK, "    Chem.BondType.TRIPLE: BondType.TRIPLE,\n", "    Chem.BondType.TRIPLE: BondType.DOUBLE,\n", "R3.rdkit-roundtrip"),
+    Mutant("rdkit-any-as-single", RDK, "    BondType.ANY: Chem.BondType.UNSPECIFIED,\n", "    BondType.ANY: Chem.BondType.SINGLE,\n", "R3.rdkit-roundtrip"),
+    Mutant("v3000-bond-code-raw", CTAB, "        bond_type = BOND_TYPE_MAPPING.get(v30_type)\n", "        bond_type = BondType(v30_type)\n", "R3.table-used", qualname="_read_structure_from_ctab_v3000"),
+    Mutant("v2000-bond-type-raw", CTAB, '        f"{BOND_TYPE_MAPPING_REV.get(bond_type, default_bond_value):>3d}"\n', '        f"{int(bond_type):>3d}"\n', "R3.table-used", qualname="_write_structure_to_ctab_v2000"),
+    Mutant("charge-not-read-back", RDK, "        atoms.charge[_atom_idx] = rdkit_atom.GetFormalCharge()\n", "", "R4.charge-paired"),
+    Mutant("charge-not-set", RDK, '        if "charge" in has_annot:\n            rdkit_atom.SetFormalCharge(atoms.charge[i].item())\n', "", "R4.charge-paired"),
+    Mutant("only-last-conformer-added", RDK, "        conformer.Set3D(True)\n        mol.AddConformer(conformer)\n", "        conformer.Set3D(True)\n    mol.AddConformer(conformer)\n", "R4.one-conformer-per-model"),
+    Mutant("conformers-reversed", RDK, "    for model_coord in coord:\n", "    for model_coord in coord[::-1]:\n", "R4.one-conformer-per-model"),
+    Mutant("constructor-bypasses-setitem", SDF, "        for key, value in metadata.items():\n            self[key] = value\n", "        for key, value in metadata.items():\n            self._metadata[_to_metadata_key(key)] = value\n", "R5.constructor-validates"),
+    Mutant("ctab-stop-before-end", SDF, '        if lines[i].startswith("M  END"):\n            return i + 1\n', '        if lines[i].startswith("M  END"):\n            return i\n', "R5.ctab-end", qualname="_get_ctab_stop"),
+    Mutant("v3000-no-end-marker", CTAB, '    return [V2000_COMPATIBILITY_LINE] + lines + ["M  END"]\n', "    return [V2000_COMPATIBILITY_LINE] + lines\n", "R5.ctab-end", qualname="_write_structure_to_ctab_v3000"),
+    Mutant("empty-value-accepted", SDF, '        if len(value) == 0:\n            raise ValueError("Metadata value must not be empty")\n', "", "R5.empty-value-refused"),
+    Mutant("sdfile-eq-raw-records", SDF, "            if self[record_name] != other[record_name]:\n", "            if self._records[record_name] != other._records[record_name]:\n", "R5.eq-through-getitem"),
+    Mutant("header-comment-line-dropped", HEAD, '        text += str(self.comments) + "\\n"\n', "", "R5.header-lines"),
+    Mutant("n-header-four", SDF, "_N_HEADER = 3\n", "_N_HEADER = 4\n", "R5.header-lines"),
+    Mutant("key-name-no-separator", SDF, '                key_string += f"<{self.name}> "\n', '                key_string += f"<{self.name}>"\n', "R5.key-components", qualname="Metadata.Key.serialize"),
+    Mutant("key-registry-one-digit", SDF, '            "registry_internal": re.compile(r"^(\\d+)$"),\n', '            "registry_internal": re.compile(r"^(\\d)$"),\n', "R5.key-components", qualname="Metadata.Key._COMPONENT_REGEX"),
+    Mutant("record-name-not-in-header", SDF, "        # The molecule name in the header is unique across the file\n        record.header.mol_name = key\n", "", "R5.record-name"),
+    Mutant("record-name-not-in-header-init", SDF, "                if isinstance(record, SDRecord):\n                    record.header.mol_name = mol_name\n", "", "R5.record-name"),
 ]
